@@ -1,6 +1,6 @@
 #!/bin/bash
-# seedtest.sh <Cnn-of-seed> <worktree> [checks...] — confirm a seeded change (demo fails with it, passes without, suite green),
-# store it under /verif/seeded/<name>/, run the given checks against /repo with the change applied, revert.
+# seedtest.sh <seed-name> <worktree> [checks...] — confirm a seeded change (demo fails with it, passes without, suite green),
+# store it under /verif/seeded/<name>/, run the given checks against a PATCHED PRIVATE COPY (tools/partest.sh; /repo is not touched).
 set -u
 name=$1; wt=$2; shift 2
 checks="$@"
@@ -10,29 +10,24 @@ cp $wt/seed_out/patch.diff $wt/seed_out/demo.rs $out/ 2>/dev/null
 cp $wt/seed_out/notes.md $out/notes.md 2>/dev/null
 cd $wt && git checkout -q -- . && mkdir -p tests && cp seed_out/demo.rs tests/demo.rs
 export CARGO_NET_OFFLINE=true
-base_demo=$(cargo test --offline --test demo 2>&1 | grep -E "^test result" | head -1)
+feat=""; grep -q "no-default-features" seed_out/notes.md 2>/dev/null && grep -qi "cfg!(feature\|must be run with .--no-default-features" seed_out/notes.md && feat="--no-default-features"
+base_demo=$(cargo test --offline --test demo $feat 2>&1 | grep -E "^test result" | head -1)
 git apply seed_out/patch.diff
 suite=$(cargo test --offline --lib 2>&1 | grep -E "^test result" | head -1)
 doc=$(cargo test --offline --doc 2>&1 | grep -E "^test result" | head -1)
-mut_demo=$(cargo test --offline --test demo 2>&1 | grep -E "^test result" | head -1)
-git checkout -q -- src; rm -rf tests
+mut_demo=$(cargo test --offline --test demo $feat 2>&1 | grep -E "^test result" | head -1)
+git checkout -q -- src; rm -rf tests target
 echo "demo on unchanged: $base_demo"; echo "suite with change: $suite / $doc"; echo "demo with change: $mut_demo"
-# evidence files are rewritten by every check run: keep the ones of the unchanged tree
-exec 9>/tmp/repo.lock; flock 9
-rm -rf /tmp/evidence_keep && cp -r /verif/evidence /tmp/evidence_keep
-cd /repo && git apply $out/patch.diff || { echo "patch does not apply to /repo"; exit 2; }
-res=""
-for c in $checks; do
-  o=$(cd /verif && python3 check.py $c --tier quick 2>&1 | grep -E "^VIOLATION" | head -1)
-  if [ -n "$o" ]; then res="$res $c:DETECTED"; echo "  $c -> $o"; else res="$res $c:quiet"; fi
-done
-cd /repo && git checkout -- . 
-python3 /verif/tools/translate.py > /dev/null
-rm -rf /verif/evidence && cp -r /tmp/evidence_keep /verif/evidence
-echo "RESULT $name:$res"
-python3 - "$name" "$base_demo" "$suite" "$doc" "$mut_demo" "$res" <<'PY'
-import json,sys
+res=$(bash /verif/tools/partest.sh seed_$name $out/patch.diff $checks 2>&1 | grep -E "^PARTEST|->" )
+echo "$res"
+r=$(echo "$res" | grep "^PARTEST" | sed -E 's/^PARTEST [^:]+://; s/ALARM/DETECTED/g')
+echo "RESULT $name:$r"
+python3 - "$name" "$base_demo" "$suite" "$doc" "$mut_demo" "$r" <<'PY'
+import json,sys,os
 name,base,suite,doc,mut,res=sys.argv[1:7]
-json.dump({"seed":name,"demo_on_unchanged":base,"unit_suite_with_change":suite,"doc_tests_with_change":doc,"demo_with_change":mut,
- "checks_run":res.split(),"ran":"tools/seedtest.sh (git apply to /repo, python3 check.py <id> --tier quick, git checkout -- .)"}, open('/verif/seeded/%s/meta.json'%name,'w'), indent=1)
+p='/verif/seeded/%s/meta.json'%name
+old=json.load(open(p)) if os.path.exists(p) else {}
+old.update({"seed":name,"demo_on_unchanged":base,"unit_suite_with_change":suite,"doc_tests_with_change":doc,"demo_with_change":mut,
+ "checks_run":res.split(),"ran":"tools/seedtest.sh (demo confirmed in the agent's worktree; tools/partest.sh: patch applied to a private worktree + private copy of /verif, python3 check.py <id> --tier quick)"})
+json.dump(old, open(p,'w'), indent=1)
 PY
